@@ -14,8 +14,8 @@ theorem capacity_step (s : St) :
   | stat i l => rt_step [Handle.capacity]
   | heap a l =>
     cases hg : hp.get? a with
-    | none => rt_step [Handle.capacity, hg, hr_capacity_none rf st hp a l _ hg]
-    | some b => rt_step [Handle.capacity, hg, hr_capacity_some rf st hp a l _ hg]
+    | none => rt_heap_none rf st hp a l hg [Handle.capacity]
+    | some b => rt_heap_some rf st hp a l hg [Handle.capacity]
 
 theorem is_unique_step (s : St) :
     GenRepr.Repr.is_unique s = match s.self.isUnique s.hp with | .ok c => .next c s | .error u => .ub u := by
@@ -26,9 +26,9 @@ theorem is_unique_step (s : St) :
   | stat i l => rt_step [Handle.isUnique]
   | heap a l =>
     cases hg : hp.get? a with
-    | none => rt_step [Handle.isUnique, hg, hr_is_unique_none rf st hp a l _ hg]
+    | none => rt_heap_none rf st hp a l hg [Handle.isUnique]
     | some b =>
-      rt_step [Handle.isUnique, hg, hr_is_unique_some rf st hp a l _ hg]
+      rt_heap_some rf st hp a l hg [Handle.isUnique]
       by_cases h1 : b.rc = 1 <;> simp [h1]
 
 end LS.GenTie
